@@ -125,6 +125,16 @@ def scenarios(tier: str, fix: str = "") -> List[Dict[str, Any]]:
                       [("req", 0), ("req", 1), ("wait", 0), ("wait", 1)], fix))
     S.append(scenario("roomy-measure-buffer-then-create-same-key", 1, [], [M("create", 1, 0, 1, room=2), M("create", 1, 0, 2)], [],
                       [("req", 0), ("wait", 0), ("req", 1), ("wait", 1)], fix))
+    # the stack refuses the first request (too many pairs); the application's next subroutine asks again for fewer on the
+    # same socket: nothing of the refused request may be left behind
+    rj = [scenario("refused-request-then-retry", 3, [], [K("create", 1, 0, 3, [0, 1, 2]), K("create", 1, 0, 1, [1])], [],
+                   [("req", 0), ("wait", 0), ("sub",), ("req", 1), ("wait", 1)], fix),
+          scenario("refused-measure-request-then-retry-and-recv", 1, [], [M("create", 1, 0, 3), M("create", 1, 0, 2), M("recv", 1, 0, 1)],
+                   [dict(remote=1, sock=0, type="M", n=1)], [("req", 0), ("wait", 0), ("sub",), ("req", 1), ("req", 2), ("wait", 1), ("wait", 2)], fix)]
+    for x in rj:
+        x["reject_over"] = 2
+        x["recover"] = True
+    S += rj
     # responses handed over as qlink-interface 1.0 objects (the conversion path): roles mixed, early arrivals
     q10 = [scenario("qlink10-roles-mixed-same-key", 2, [], [K("create", 1, 0, 1, [0]), K("recv", 1, 0, 1, [1])],
                     [dict(remote=1, sock=0, type="K", n=1)], [("req", 0), ("req", 1), ("wait", 0), ("wait", 1)], fix),
